@@ -160,6 +160,14 @@ JudgeWT(t, i, T, v, e) ==
                 /\ (IF e.redec_st = "ok" THEN Check(t, i, "FixpointDiffers", Norm(T, e.v2) = Norm(T, e.v)) ELSE TRUE)
            ELSE TRUE)
 
+(* one abstract value reached by several construction histories (C04): e.ders[k] / e.cers[k] are the DER / CER   *)
+(* octets of history k (<<>> with e.sts[k] = "raise" when the encoder refused)                                   *)
+JudgeHist(t, i, T, v, e) ==
+  LET K == 1..Len(e.ders) IN
+  /\ Check(t, i, "EncodableDependsOnHistory", \A k \in K : e.sts[k] = e.sts[1])
+  /\ Check(t, i, "DerDependsOnHistory", \A k \in K : (e.sts[k] = "ok" /\ e.sts[1] = "ok") => e.ders[k] = e.ders[1])
+  /\ Check(t, i, "CerDependsOnHistory", \A k \in K : (e.sts[k] = "ok" /\ e.sts[1] = "ok") => e.cers[k] = e.cers[1])
+
 (* several decoders accepted the same input: same abstract value (C02) *)
 JudgeAgree(t, i, T, v, e) ==
   Check(t, i, "Disagree", \A a, b \in 1..Len(e.vs) : Norm(T, e.vs[a]) = Norm(T, e.vs[b]))
@@ -172,6 +180,7 @@ Judge(t, i) ==
     [] e.op = "agree" -> JudgeAgree(t, i, c.T, c.v, e)
     [] e.op = "open" -> JudgeOpen(t, i, c.T, c.v, e)
     [] e.op = "wt" -> JudgeWT(t, i, c.T, c.v, e)
+    [] e.op = "hist" -> JudgeHist(t, i, c.T, c.v, e)
     [] e.op = "same" -> Check(t, i, "Disagree", e.a = e.b)      \* two library paths, same octets (C17)
     [] e.op = "pfxs" -> JudgePfxs(t, i, c.T, c.v, e)
     [] e.op = "tags" -> JudgeTags(t, i, c.T, c.v, e)
